@@ -7,11 +7,19 @@
     core fragment the interpreter answers a value or an error, never a panic; (v) text capture
     slices inside the text (C14); (vi) the span and source operations are total on canonical
     arguments (C19/C20/C18 theorems).
-    Partial: for the recovering, repeating, bracket and list combinators and for the rendering,
-    absence of RPanic is decided by the correspondence run (the real code under catch_unwind,
-    formatting every returned and collected error and every lexer state with Display and Debug),
-    not by a theorem. *)
-From Tephra Require Import MetricsSpec CLexer LexerFacts Run Peg RunCore RunTotal.
+    (vii) THE WHOLE COMBINATOR MODEL ([C01_no_combinator_panics]): for every grammar built from the
+    sixty combinators within the documented argument preconditions ([pre_ok]: non-empty token
+    slices for any/any_index, high >= low, non-empty disjoint open/close bracket sets of equal
+    length), every lexer standing in the scan (any text, line ending, tab width, scanner state,
+    filter, look-ahead, recover state), every context (sink or none) and store, and every fuel:
+    the interpreter never answers RPanic, and the lexer a successful parse returns stands in the
+    scan again. This covers the list combinator's debug_assert (the item wrapper always leaves a
+    separator, an abort token or nothing next, so the separator parser never has to recover), the
+    bracket scan's unwraps (a looked-at token always has a span) and text's slice (inside the text).
+    Not covered by a theorem: the rendering of errors and lexer states (Display / Debug), which the
+    correspondence run exercises under catch_unwind on every returned and collected error and every
+    lexer state; panics inside dependencies; stack exhaustion. *)
+From Tephra Require Import MetricsSpec CLexer LexerFacts Run Peg RunCore RunTotal RunBracket RunSafe.
 
 Theorem C01_lexer_operations_never_panic :
   forall m, 1 <= tabw m -> forall t, wf_text t ->
@@ -46,6 +54,43 @@ Theorem C01_core_never_panics :
   (exists v lx', run fuel g lx c st = (ROk v lx', st)) \/ (exists e, run fuel g lx c st = (RErr e, st)).
 Proof. exact core_total. Qed.
 Print Assumptions C01_core_never_panics.
+
+Theorem C01_no_combinator_panics :
+  forall m, 1 <= tabw m -> forall t, wf_text t ->
+  forall fuel g, pre_ok g = true -> forall lx ys c st, Inv m t lx ys ->
+  match run fuel g lx c st with
+  | (ROk _ lx', _) => exists ys', Inv m t lx' ys'
+  | (RPanic, _) => False
+  | _ => True
+  end.
+Proof. exact run_safe. Qed.
+Print Assumptions C01_no_combinator_panics.
+
+(** from Lexer::new(..).with_filter(..): any parser within the preconditions, any text *)
+Theorem C01_from_a_new_lexer :
+  forall m, 1 <= tabw m -> forall t, wf_text t ->
+  forall sc fl lx0, c_met (c_new sc t) = m -> c_with_filter (c_new sc t) fl = Ok lx0 ->
+  forall fuel g c st, pre_ok g = true -> fst (run fuel g lx0 c st) <> RPanic.
+Proof.
+  intros m Htab t Ht sc fl lx0 Hm Hw fuel g c st Hg.
+  destruct (Inv_new m Htab t Ht sc Hm) as [ys HI].
+  destruct (c_with_filter_spec m Htab t Ht _ ys fl HI) as (l1 & y1 & E1 & HI1 & _).
+  rewrite Hw in E1. injection E1 as <-.
+  pose proof (run_safe m Htab t Ht fuel g Hg lx0 y1 c st HI1) as H.
+  destruct (run fuel g lx0 c st) as [[v l|e| |] s]; cbn [fst]; try discriminate. contradiction.
+Qed.
+Print Assumptions C01_from_a_new_lexer.
+
+(** the preconditions: exactly the documented ones *)
+Theorem C01_preconditions_meaning :
+  (forall ks, pre_ok (GAny ks) = match ks with [] => false | _ => true end)
+  /\ (forall lo hi a, pre_ok (GRepeat lo hi a) = (match hi with Some h => lo <=? h | None => true end) && pre_ok a)
+  /\ (forall os a cs ab, pre_ok (GBracket os a cs ab) = bracket_pre os cs && pre_ok a)
+  /\ (forall os cs, bracket_pre os cs =
+        negb ((match os with [] => true | _ => false end) || (match cs with [] => true | _ => false end)
+              || negb (length os =? length cs) || negb (disjoint_kinds os cs))).
+Proof. repeat split; reflexivity. Qed.
+Print Assumptions C01_preconditions_meaning.
 
 (** the documented preconditions are what the model's explicit panics guard: e.g. an empty token
     slice for any, high < low for a bounded list *)
